@@ -678,10 +678,17 @@ def apply_hints(body, spec, fnkey):
             ls = body.rfind('\n', 0, idx) + 1
             body = body[:ls] + text + '\n' + body[ls:]
         else:
-            j = find_top(mask, idx, ';')
+            j = find_top(mask, idx, ';}')
             if j < 0:
                 raise SpliceError('lost anchor: no statement end after `%s` in %s' % (lit, fnkey))
-            body = body[:j + 1] + '\n' + text + body[j + 1:]
+            if mask[j] == '}':
+                # the anchored statement is an unterminated tail of its block (`x = y }`): terminate it
+                k = j
+                while k > 0 and mask[k - 1].isspace():
+                    k -= 1
+                body = body[:k] + ';\n' + text + '\n' + body[j:]
+            else:
+                body = body[:j + 1] + '\n' + text + body[j + 1:]
     return body
 
 
